@@ -199,6 +199,9 @@ func runMethods(t *testing.T, sc *scen.Scenario, round string) bool {
 		if m.Pass > 0 {
 			cls = append(cls, "second-call-on-the-same-client")
 		}
+		if m.Pass == 2 {
+			cls = append(cls, "zero-valued-scalar-arguments")
+		}
 		run.Case(true, evid.Hash("method", m.Function, sc.Methods.Seed, sc.Methods.Invert, m.Pass), cls...)
 		if m.OK {
 			continue
